@@ -488,6 +488,10 @@ def check(pid, cfg, tier, seed, tmp, args, t0):
                 rs, pnotes = procs.run(name, tier, seed, dict(fzf=fzfbin, driver=driver, tmp=tmp, harness=harness, pid=pid))
                 results += rs
                 notes += pnotes
+                # a driver that could not do its work is a correspondence that no longer checks, not a footnote
+                for pn in pnotes:
+                    if str(pn).startswith('BROKEN:'):
+                        broken.append(('process-level driver %s' % name, str(pn)))
 
     # ---- verdict
     findings = load_findings(pid)
